@@ -7,7 +7,7 @@ import Rox.Parse
 import Rox.Lemmas.TokSpec
 import Rox.Lemmas.RangeOrd
 import Rox.Lemmas.EntFrame
-import Rox.Props.C16
+import Rox.Props.C16Base
 
 namespace Rox.Lemmas
 open Rox Rox.Spec
